@@ -169,3 +169,8 @@ def build(enc):
         return t
 
     return go(tagged)
+
+
+def render_rel(tree, pos):
+    """canonical relative spelling: a/b[0][1]/c ('' for the root)"""
+    return render(None, tree, pos, "rel")
